@@ -169,6 +169,10 @@ class PUSO(BO, PUSOMatrix):
         P = puso_to_pubo(self)
         P._mapping = self.mapping
         P._reverse_mapping = self.reverse_mapping
+        # P inherits the labelling of self, so it must also count the same
+        # variables (the cached ones of self can be more than P found)
+        P._variables = self.variables
+        P._num_binary_variables = self.num_binary_variables
         return P
 
     def to_pubo(self, deg=None, lam=None, pairs=None):
